@@ -54,6 +54,9 @@ type Oblig struct {
 	ModelQF bool
 	scriptText string
 	qfText     string
+	slimText   string
+	identText  string
+	Slim       bool
 }
 
 type VC struct {
@@ -79,6 +82,11 @@ type VC struct {
 	preds       map[string]*predInfo
 	predsInit   bool
 	suppressTouch bool
+	touchIdx      *Term
+	tags          []byte // provenance of each assumption (parallel to assumes)
+	tag           byte
+	onlyPreds     map[string]bool // when set: only these abstract functions get frames (the others are unused in this VC)
+	usedPreds     map[string]bool
 }
 
 func (vc *VC) fresh(prefix string, s *Sort) *Term {
@@ -92,7 +100,15 @@ func (vc *VC) assume(st *State, fact *Term) {
 	if isTrue(fact) || vc.noLoadFacts {
 		return
 	}
+	if fact.Kind == TApp && fact.Op == "and" {
+		// top-level conjuncts separately, so that assumption slicing works per conjunct
+		for _, c := range fact.Args {
+			vc.assume(st, c)
+		}
+		return
+	}
 	vc.assumes = append(vc.assumes, mkImplies(st.reach, fact))
+	vc.tags = append(vc.tags, vc.tag)
 }
 
 func (vc *VC) assumeGlobal(fact *Term) {
@@ -100,6 +116,16 @@ func (vc *VC) assumeGlobal(fact *Term) {
 		return
 	}
 	vc.assumes = append(vc.assumes, fact)
+	vc.tags = append(vc.tags, vc.tag)
+}
+
+// withTag marks the provenance of the assumptions made until the returned function is called:
+// 'R' own preconditions, 'I' loop invariants assumed at a loop head, 'L' earlier postconditions used as lemmas,
+// 'E' callee postconditions, 'F' frame axioms, 0 everything else (definitions, guards, type facts).
+func (vc *VC) withTag(t byte) func() {
+	saved := vc.tag
+	vc.tag = t
+	return func() { vc.tag = saved }
 }
 
 func (vc *VC) site(key string) int {
@@ -202,15 +228,15 @@ func (vc *VC) famSet(st *State, key string, t *Term) {
 		vc.assumeGlobal(mkEq(v, t))
 		t = v
 	}
+	vc.touchFamily(st, key) // before the update: frames are computed on the pre-state
 	st.heap[key] = t
-	vc.touchFamily(st, key)
 }
 
 func (vc *VC) famHavoc(st *State, key string, s *Sort) *Term {
 	v := vc.fresh("H$"+key, s)
 	vc.famSort[key] = s
-	st.heap[key] = v
 	vc.touchFamily(st, key)
+	st.heap[key] = v
 	return v
 }
 
@@ -399,6 +425,11 @@ func (vc *VC) storePtr(st *State, p *VPtr, t types.Type, v Val) {
 		return
 	}
 	_, sub := subPath(p.Root, p.Path)
+	if p.Base != nil {
+		saved := vc.touchIdx
+		vc.touchIdx = p.Base
+		defer func() { vc.touchIdx = saved }()
+	}
 	walkVal(t, "", v, func(l Leaf, tm *Term) {
 		key, s := vc.leafKey(p, sub, l)
 		arr := vc.famGet(st, key, s)
@@ -1021,7 +1052,9 @@ func (fr *Frame) enterLoop(h *ssa.BasicBlock, in *State) *State {
 	if spec != nil {
 		for _, c := range spec.Invariants {
 			g := vc.evalClause(fr, c, cur, vc.entry, nil)
+			untag := vc.withTag('I')
 			vc.assume(cur, g)
+			untag()
 		}
 		if spec.Decreases != nil {
 			m := vc.evalTerm(fr, spec.Decreases, cur, vc.entry, nil)
